@@ -313,14 +313,9 @@ func allCompositions(n int) [][]int64 {
 }
 
 // bigAgg: the number of output rows straddles MaxPointsPerBlock (1000) and 2×
-func bigAgg(r *h.Rand, agg string) string {
-	typ := h.Pick(r, []byte{'f', 'i', 'u'})
-	if agg == "count" || agg == "first" || agg == "last" {
-		typ = h.Pick(r, []byte{'f', 'i', 'u', 's', 'b'})
-	}
+func bigAgg(r *h.Rand, agg string, typ byte, windows int) string {
 	every := h.Pick(r, []int64{1, 2, 5, 10, 1000})
 	offset := pickOffset(r, every)
-	windows := int(h.Pick(r, []int64{998, 999, 1000, 1001, 1002, 1500, 1999, 2000, 2001, 2003, 2400}))
 	t := pickBase(r)
 	t -= t % every
 	var ts []int64
@@ -404,7 +399,7 @@ func winLine(r *h.Rand) string {
 }
 
 func gen(r *h.Rand, tier string, emit func([]string)) {
-	nSmall, nBig, nWin := 250, 3, 40
+	nSmall, nBig, nWin := 250, 2, 40
 	exhaustN := 5
 	if tier == "thorough" {
 		nSmall, nBig, nWin = 2500, 12, 400
@@ -446,9 +441,19 @@ func gen(r *h.Rand, tier string, emit func([]string)) {
 		}
 	}
 	// 3. output sizes around MaxPointsPerBlock
+	//    every aggregate x every field type it supports gets at least one request whose
+	//    output needs a second block (the tmp carry-over path), plus sizes right at the edges
+	edge := []int64{998, 999, 1000, 1001, 1002, 1999, 2000, 2001, 2003, 2400}
 	for _, agg := range aggs {
+		typs := []byte{'f', 'i', 'u'}
+		if agg == "count" || agg == "first" || agg == "last" {
+			typs = []byte{'f', 'i', 'u', 's', 'b'}
+		}
+		for _, typ := range typs {
+			emit([]string{bigAgg(r, agg, typ, int(h.Pick(r, []int64{1001, 1002, 1003, 1200, 2001, 2100})))})
+		}
 		for i := 0; i < nBig; i++ {
-			emit([]string{bigAgg(r, agg)})
+			emit([]string{bigAgg(r, agg, h.Pick(r, typs), int(h.Pick(r, edge)))})
 		}
 	}
 	// 4. interval.Window on its own
